@@ -25,7 +25,7 @@ func killThreadProbe(i int, p Probe) {
 		tidCh <- -1
 	}()
 	tid := <-tidCh
-	for n := 0; n < 600; n++ {
+	for n := 0; n < 6000; n++ {
 		select {
 		case <-tidCh:
 			emit(map[string]any{"ev": "thread-survived", "i": i, "tid": tid})
